@@ -47,6 +47,8 @@ fn invariants(c: &CVal) -> Result<(), (String, String)> {
     let kinds: BTreeSet<String> = e.iter().map(|x| match x { CVal::Set(..) => "set".to_string(), CVal::Tuple(t) => format!("tuple{}", t.len()), o => o.kind_str() }).collect();
     if kinds.len() > 1 { return Err(("mixed-kinds".into(), format!("set {} has elements of kinds {:?}", c.show(), kinds))); }
     if *n != e.len() { return Err(("size-mismatch".into(), format!("set {} reports size {} but has {} elements", c.show(), n, e.len()))); }
+    // the declared element kind is the kind of the (scalar) elements
+    if let Some(CVal::S(ek, _)) = e.first() { if k != ek { return Err(("declared-kind-differs".into(), format!("set {} declares element kind {} but holds {} elements", c.show(), k, ek))); } }
     for x in e { invariants(x)?; }
   }
   Ok(())
@@ -83,6 +85,14 @@ impl Prop for C14 {
           let forms = ["vv", "vl", "lv", "ll"][i % 4];
           let cell = format!("kind={};op={};a={};b={};forms={}", k, op, if a.is_empty() { "empty" } else { "nonempty" }, if b.is_empty() { "empty" } else { "nonempty" }, forms);
           out.push(Case { id: format!("{};n={}", cell, i), cell, input: json!({"mode": "binop", "kind": k, "a": a, "b": b, "op": op, "forms": forms}) });
+        }
+        // the same set written in another order on the other side: relations and operators must not depend on insertion order
+        if a.len() >= 2 { let mut rot = a.clone(); rot.rotate_left(1 + i % (a.len() - 1).max(1)); if i % 2 == 0 { rot.reverse(); }
+          for op in BINOPS.iter().chain(RELS.iter()) {
+            let forms = ["vv", "ll", "vl", "lv"][i % 4];
+            let cell = format!("kind={};op={};a=nonempty;b=permutation-of-a;forms={}", k, op, forms);
+            out.push(Case { id: format!("{};n={}", cell, i), cell, input: json!({"mode": "binop", "kind": k, "a": a, "b": rot, "op": op, "forms": forms}) });
+          }
         }
         // membership of every universe element
         let forms = ["lv", "vv", "ll", "vl"][i % 4];
@@ -225,6 +235,11 @@ impl Prop for C14 {
         if BINOPS.contains(&op) {
           let want = apply(op, &ia, &ib);
           if tri!(to_ids(&v, &m)) != want { return Outcome::violated("set-algebra-wrong", format!("{} with a={} b={} gave {}", src, va.show(), vb.show(), v.show())); }
+          // the result is a set like any other: membership in it agrees with its elements
+          for (sp, id) in universe(k).into_iter().take(3) {
+            let q = format!("{} ∈ ({})", sp, src);
+            match s.eval(&q) { Ev::Ok(CVal::S(_, Sc::B(g))) => if g != want.contains(&id) { return Outcome::violated("membership-wrong", format!("{} with a={} b={} gave {} although {} evaluates to {}", q, va.show(), vb.show(), g, src, v.show())); }, Ev::Panic(p) => return Outcome::violated("panic-escaped", p), _ => {} }
+          }
         } else {
           let want = match op { "⊆" => ia.is_subset(&ib), "⊇" => ia.is_superset(&ib), "⊊" => ia.is_subset(&ib) && ia != ib, _ => ia.is_superset(&ib) && ia != ib };
           match v { CVal::S(_, Sc::B(g)) => if g != want { return Outcome::violated("set-relation-wrong", format!("{} with a={} b={} gave {} expected {}", src, va.show(), vb.show(), g, want)); }, o => return Outcome::violated("not-a-bool", format!("{} gave {}", src, o.show())) }
